@@ -281,7 +281,7 @@ Qed.
 Lemma pod_sums g ph : forall a,
   pod_row_ok g ph a = true ->
   forall (X : list (list R)) t,
-  let P := sum_sel (map (fun x => negb (qeq x 0)) a) X t in
+  let P := sum_sel (nonzero_flags a) X t in
   wsum (map Q2R a) X (map cosd (map Q2R ph)) t = cosd (Q2R g) * P /\
   wsum (map Q2R a) X (map sind (map Q2R ph)) t = sind (Q2R g) * P.
 Proof.
@@ -291,27 +291,39 @@ Proof.
     apply andb_true_iff in H. destruct H as [Hx Hrest].
     destruct X as [|r X]. { simpl. split; ring. }
     specialize (IH a Hrest X t). cbv zeta in IH. destruct IH as [E1 E2].
-    cbv zeta. cbn [map]. rewrite !wsum_cons, E1, E2. cbn [sum_sel].
+    cbv zeta. unfold nonzero_flags in *. cbn [map]. rewrite !wsum_cons, E1, E2. cbn [sum_sel].
     destruct (qeq x 0) eqn:E0.
     + rewrite (qeq_int _ _ E0). cbn [negb]. split; ring.
     + cbn [orb] in Hx. apply andb_true_iff in Hx. destruct Hx as [H1 Hp].
       rewrite (qeq_int _ _ H1), (qeq_Q2R _ _ Hp). cbn [negb]. split; ring.
 Qed.
 
-Lemma pod_bound s j X T ovt ort t :
-  check_pod s j = true ->
+Lemma list_eqb_bool_eq (l1 l2 : list bool) : list_eqb Bool.eqb l1 l2 = true -> l1 = l2.
+Proof.
+  revert l2; induction l1 as [|a l1 IH]; intros [|b l2] H; simpl in H; try discriminate; auto.
+  apply andb_true_iff in H. destruct H as [H1 H2]. apply eqb_prop in H1. subst. f_equal. auto.
+Qed.
+
+Lemma pod_bound s j rating members X T ovt ort t :
+  check_pod s (j, rating, members) = true ->
   net_is_feasible RF (site_net_R s) X T false ovt ort = true ->
   (t < T)%nat ->
-  row_sum s j X t <= site_rhs s ovt ort j.
+  station_sum s members X t <= site_rhs s ovt ort j
+  /\ Q2R (site_limit s j) <= Q2R rating.
 Proof.
   unfold check_pod. intros Hc Hf Ht.
-  repeat (apply andb_true_iff in Hc; destruct Hc as [Hc ?]).
-  apply Nat.ltb_lt in Hc.
-  match goal with H : Nat.eqb _ _ = true |- _ => apply Nat.eqb_eq in H; rename H into Hlen end.
-  match goal with H : existsb _ _ = true |- _ => apply existsb_exists in H; destruct H as (g & _ & Hg) end.
-  pose proof (site_row_feasible s X T ovt ort j t Hf Hc Hlen Ht) as Fa. cbv zeta in Fa.
+  apply andb_true_iff in Hc; destruct Hc as [Hc Hrat].
+  apply andb_true_iff in Hc; destruct Hc as [Hc Hmem].
+  apply andb_true_iff in Hc; destruct Hc as [Hc Hex].
+  apply andb_true_iff in Hc; destruct Hc as [Hc Hpos].
+  apply andb_true_iff in Hc; destruct Hc as [Hj Hlen].
+  apply Nat.ltb_lt in Hj. apply Nat.eqb_eq in Hlen.
+  apply existsb_exists in Hex; destruct Hex as (g & _ & Hg).
+  apply list_eqb_bool_eq in Hmem.
+  split; [|apply Qle_Rle; now apply Qleb_spec].
+  pose proof (site_row_feasible s X T ovt ort j t Hf Hj Hlen Ht) as Fa. cbv zeta in Fa.
   destruct (pod_sums g _ _ Hg X t) as [E1 E2]. rewrite E1, E2 in Fa.
-  unfold row_sum, site_rhs.
+  unfold station_sum, site_rhs. rewrite <- Hmem.
   set (P := sum_sel _ X t) in *. set (Rr := Q2R (site_limit s j) + _) in *.
   destruct Fa as [HR Fa].
   pose proof (sin2_cos2 (Q2R g * PI / 180)) as H1. unfold Rsqr in H1. fold (sind (Q2R g)) (cosd (Q2R g)) in H1.
@@ -327,7 +339,7 @@ Lemma check_site_parts s :
   check_site s = true ->
   check_shape s = true /\ check_phases s = true /\ check_covered s = true
   /\ (forall tr, In tr (s_transformers s) -> check_transformer s tr = true)
-  /\ (forall j, In j (s_pods s) -> check_pod s j = true)
+  /\ (forall p, In p (s_pods s) -> check_pod s p = true)
   /\ (forall p, In p (s_panels s) -> check_panel s p = true).
 Proof.
   unfold check_site. intros H.
@@ -364,12 +376,14 @@ Proof.
     exists tr. repeat split; auto. now apply memb_In.
 Qed.
 
-Lemma check_panel_fields s ja jb jc :
-  check_panel s (ja, jb, jc) = true ->
+Lemma check_panel_fields s ja jb jc rating members :
+  check_panel s ((ja, jb, jc), rating, members) = true ->
   (ja < n_site_rows s)%nat /\ (jb < n_site_rows s)%nat /\ (jc < n_site_rows s)%nat
   /\ length (s_limits s) = n_site_rows s
   /\ delta_rows_ok (s_phases s) (site_row s ja) (site_row s jb) (site_row s jc)
-       (panel_flags (site_row s ja) (site_row s jb) (site_row s jc)) = true.
+       (member_flags (n_site_stations s) members) = true
+  /\ Q2R (site_limit s jb) = Q2R (site_limit s ja) /\ Q2R (site_limit s jc) = Q2R (site_limit s ja)
+  /\ Q2R (site_limit s ja) <= Q2R rating.
 Proof.
   unfold check_panel. intros H.
   repeat (apply andb_true_iff in H; destruct H as [H ?]).
@@ -377,7 +391,9 @@ Proof.
          | H : Nat.ltb _ _ = true |- _ => apply Nat.ltb_lt in H
          | H : Nat.eqb _ _ = true |- _ => apply Nat.eqb_eq in H
          end.
-  repeat split; auto.
+  apply list_eqb_bool_eq in H. rewrite <- H.
+  repeat split; auto; try (now apply qeq_Q2R).
+  apply Qle_Rle. now apply Qleb_spec.
 Qed.
 
 (* ------------------------------------------------------------------ limit formulas *)
